@@ -189,19 +189,21 @@ fn checked_round_quot(
 #[doc(hidden)]
 #[must_use]
 pub fn i128_div_rounded(
-    mut divident: i128,
-    mut divisor: i128,
+    divident: i128,
+    divisor: i128,
     mode: Option<RoundingMode>,
 ) -> i128 {
-    if divisor < 0 {
-        divident = -divident;
-        divisor = -divisor;
-    }
     let (quot, rem) = i128_div_mod_floor(divident, divisor);
-    // div_mod_floor with divisor > 0 => rem >= 0
-    // rem != 0 => divisor >= 2 => |quot| <= i128::MAX / 2 + 1, so that
+    // rem, if non-zero, has the same sign as divisor => rem / divisor >= 0
+    // rem != 0 => |divisor| >= 2 => |quot| <= i128::MAX / 2 + 1, so that
     // rounding can't overflow here.
-    checked_round_quot(quot, rem as u128, divisor as u128, mode).unwrap()
+    checked_round_quot(
+        quot,
+        rem.unsigned_abs(),
+        divisor.unsigned_abs(),
+        mode,
+    )
+    .unwrap()
 }
 
 /// Divide 'divident * 10^p' by 'divisor' and round result according to
@@ -209,18 +211,14 @@ pub fn i128_div_rounded(
 #[doc(hidden)]
 #[must_use]
 pub fn i128_shifted_div_rounded(
-    mut divident: i128,
+    divident: i128,
     p: u8,
-    mut divisor: i128,
+    divisor: i128,
     mode: Option<RoundingMode>,
 ) -> Option<i128> {
-    if divisor < 0 {
-        divident = -divident;
-        divisor = -divisor;
-    }
     let (quot, rem) = i128_shifted_div_mod_floor(divident, p, divisor)?;
-    // div_mod_floor with divisor > 0 => rem >= 0
-    checked_round_quot(quot, rem as u128, divisor as u128, mode)
+    // rem, if non-zero, has the same sign as divisor => rem / divisor >= 0
+    checked_round_quot(quot, rem.unsigned_abs(), divisor.unsigned_abs(), mode)
 }
 
 /// Divide 'x * y' by '10^p' and round result according to 'mode'.
